@@ -97,23 +97,34 @@ LoadCb(ev, ord) ==
            new == {r \in SeqToSet(ev.rules) : Valid(r) /\ scope(r)}
            keep == {r \in brs : ~scope(r)}
            all == new \cup keep
-           old(r) == {o \in brs : SameRule(o, r)}
+           \* the breaker of an unchanged rule is kept when the rules of its resource are, as a set under
+           \* rule equality, the ones before the load (the case the property speaks about); if another rule
+           \* of the resource changed in the same call, the code may hand an old breaker's statistics to
+           \* the changed rule and rebuild the unchanged one, so the rule then counts as new
+           sameRes(r) == /\ \A a \in {o \in brs : o.res = r.res} : \E b \in {x \in all : x.res = r.res} : SameRule(a, b)
+                         /\ \A b \in {x \in all : x.res = r.res} : \E a \in {o \in brs : o.res = r.res} : SameRule(a, b)
+           oldAny(r) == {o \in brs : SameRule(o, r)}
+           ids == {r.id : r \in new}
        IN
        /\ brs' = all
        /\ DOMAIN ord = {r.res : r \in new}
        /\ \A rs \in DOMAIN ord : ord[rs] \in Perms({r.id : r \in {x \in new : x.res = rs}})
        /\ order' = [rs \in {r.res : r \in all} |-> IF rs \in DOMAIN ord THEN ord[rs] ELSE order[rs]]
-       \* an unchanged rule keeps its breaker (state, retry instant, counters); a changed or new one
-       \* starts Closed, with the counters of an old breaker of the same window or with none
-       /\ \E src \in [{r.id : r \in new} -> {o.id : o \in brs} \cup {"<fresh>"}] :
-            /\ \A r \in new : IF old(r) # {} THEN src[r.id] \in {o.id : o \in old(r)}
-                              ELSE src[r.id] \in {"<fresh>"} \cup {o.id : o \in {x \in brs : StatReusable(x, r)}}
+       \* kept[id]: the rule continues with the breaker of an equal old rule (state, retry instant, counters);
+       \* otherwise it starts Closed, with the counters of an old breaker of the same window or with none
+       /\ \E kept \in [ids -> BOOLEAN] :
+          \E src \in [ids -> {o.id : o \in brs} \cup {"<fresh>"}] :
+            /\ \A r \in new :
+                  /\ (oldAny(r) # {} /\ sameRes(r)) => kept[r.id]
+                  /\ kept[r.id] => oldAny(r) # {}
+                  /\ IF kept[r.id] THEN src[r.id] \in {o.id : o \in oldAny(r)}
+                     ELSE src[r.id] \in {"<fresh>"} \cup {o.id : o \in {x \in brs : StatReusable(x, r)}}
             /\ st' = [id \in {r.id : r \in all} |->
                         IF id \in {r.id : r \in keep} THEN st[id]
-                        ELSE IF old(Rule2(all, id)) # {} THEN st[src[id]] ELSE "closed"]
+                        ELSE IF kept[id] THEN st[src[id]] ELSE "closed"]
             /\ retryAt' = [id \in {r.id : r \in all} |->
                         IF id \in {r.id : r \in keep} THEN retryAt[id]
-                        ELSE IF old(Rule2(all, id)) # {} THEN retryAt[src[id]] ELSE -1]
+                        ELSE IF kept[id] THEN retryAt[src[id]] ELSE -1]
             /\ cnt' = [id \in {r.id : r \in all} |->
                         IF id \in {r.id : r \in keep} THEN cnt[id]
                         ELSE IF src[id] = "<fresh>" THEN <<>> ELSE cnt[src[id]]]
